@@ -12,7 +12,8 @@ package c16
 //
 // establishment prefixes: padr (PADS sent), lcp (LCP opened, authentication phase), authed (PAP
 // acknowledged, address allocated, IPCP started), established (IPCP acknowledged)
-// paths: padt, lcp-term, auth-fail (RADIUS rejects a PAP request; the closed session is reaped by the
+// paths: second-padr (the same MAC opens and uses a second session, the first is abandoned and reaped; then PADT of
+// the second), padt, lcp-term, auth-fail (RADIUS rejects a PAP request; the closed session is reaped by the
 // next idle sweep, after which the oracle runs), idle, shutdown (Server.Stop()).
 
 import (
@@ -195,7 +196,7 @@ func (s *pppSink) count() int {
 	return s.n
 }
 
-var pppoePaths = []string{"padt", "lcp-term", "auth-fail", "idle", "shutdown"}
+var pppoePaths = []string{"padt", "lcp-term", "auth-fail", "idle", "shutdown", "second-padr"}
 
 var pppoePrefixes = map[string][]string{
 	"padt":      {"padr", "lcp", "authed", "established"},
@@ -203,6 +204,9 @@ var pppoePrefixes = map[string][]string{
 	"auth-fail": {"lcp", "authed", "established"},
 	"idle":      {"padr", "lcp", "authed", "established"},
 	"shutdown":  {"authed", "established"},
+	// superseded family: the same MAC opens a second session (pppoe.Server allows several sessions per MAC, RFC 2516),
+	// abandons the first one and keeps using the second
+	"second-padr": {"padr", "lcp", "authed", "established"},
 }
 
 func pppoeCells() []cellSpec {
@@ -255,6 +259,7 @@ type pppRun struct {
 	sink *pppSink
 	me   *pppSess
 	bg   []*pppSess
+	succ *pppSess // superseded family: the second session of the same MAC while it is alive
 }
 
 func (x *pppRun) timeout() time.Duration {
@@ -348,6 +353,9 @@ func (x *pppRun) keepalive() {
 	for _, b := range x.bg {
 		x.srv.VerifHandleSession(b.mac, pppFrame(b.sid, protoLCP, cpPacket(cpEchoReq, 9, []byte{0, 0, 0, 0})))
 	}
+	if x.succ != nil {
+		x.srv.VerifHandleSession(x.succ.mac, pppFrame(x.succ.sid, protoLCP, cpPacket(cpEchoReq, 9, []byte{0, 0, 0, 0})))
+	}
 	x.sink.drain()
 }
 
@@ -394,6 +402,40 @@ func (x *pppRun) terminate(path string) {
 	case "idle":
 		x.res.logf("  peer goes silent")
 		x.idleSweep()
+	case "second-padr":
+		// the client reconnects without a PADT: PADI/PADR from the same MAC, a second session is established and
+		// used; the first one is abandoned and must go - with its address - when its idle time is up
+		s2 := &pppSess{mac: s.mac, user: s.user}
+		if !x.establish(s2, "established") {
+			if x.res.harness == "" {
+				x.res.harness = "second session of the same MAC was not established"
+			}
+			return
+		}
+		x.succ = s2
+		x.res.logf("  second PADR from %s: session %d (%v) next to session %d", s.mac, s2.sid, s2.ip, s.sid)
+		x.idleSweep()
+		pool := x.srv.VerifPool()
+		if _, ok := x.srv.VerifSession(s.sid); ok {
+			x.res.fail("C16/pppoe/second-padr/entry", "the abandoned first session %d is still in the table after its idle time", s.sid)
+		}
+		if ip, ok := pool.Allocated[s.acctSID]; ok {
+			x.res.fail("C16/pppoe/second-padr/pool", "the abandoned first session %d still holds %s", s.sid, ip)
+		}
+		if _, ok := x.srv.VerifSession(s2.sid); !ok {
+			x.res.fail("C16/pppoe/second-padr/successor-entry", "ending the abandoned session %d took the client's live session %d with it", s.sid, s2.sid)
+		} else if _, ok := pool.Allocated[s2.acctSID]; !ok {
+			x.res.fail("C16/pppoe/second-padr/successor-pool", "ending the abandoned session %d released the address of the client's live session %d", s.sid, s2.sid)
+		}
+		if len(x.res.viol) > 0 {
+			return
+		}
+		x.res.logf("  PADT sid=%d (the second session)", s2.sid)
+		x.srv.VerifHandleDiscovery(s2.mac, pppoeHdr(codePADT, s2.sid, nil))
+		x.succ = nil
+		if ip, ok := x.srv.VerifPool().Allocated[s2.acctSID]; ok {
+			x.res.fail("C16/pppoe/second-padr/successor-pool", "PADT of the second session %d left %s allocated", s2.sid, ip)
+		}
 	case "shutdown":
 		x.res.logf("  Server.Stop()")
 		_ = x.srv.Stop()
